@@ -252,7 +252,9 @@ package logqlengine
 //@   modifies *
 //@   loop 0 modifies *
 //@   loop 0 invariant same(i.iter, old(i.iter))
+//@   loop 0 invariant[rejected-records-are-not-counted] i.entries == old(i.entries) && i.limit == old(i.limit)
 //@   ensures[source-kept] same(i.iter, old(i.iter))
+//@   ensures[counts-exactly-the-entries-it-returns] i.limit == old(i.limit) && (ret0 ==> i.entries == old(i.entries) + 1) && (!ret0 ==> i.entries == old(i.entries))
 //@   ensures[emit-only-kept]       ret0 ==> n_called && n_r0 && pf_called && pf_r1 && pp_called && pp_r1
 //@   ensures[original-timestamp]   ret0 ==> e.ts == record.Timestamp && pf_a0 == record.Timestamp && pp_a0 == record.Timestamp
 //@   ensures[line-flows-through]   ret0 ==> pf_a1 == record.Body && pp_a1 == pf_r0 && e.line == pp_r0
@@ -423,6 +425,12 @@ package logqlengine
 // end keeps its place), and the entry iterator applies the caller's limit.
 //@ func (*Engine).selectLogs
 //@   capture sq = call(e.querier.SelectLogs, 0)
+//@   capture xq = call(extractQueryConditions, 0)
+//@   capture bp = call(BuildPipeline, 0)
+//@   ensures[conditions-of-this-query] xq_called && same(xq_a0, old(e.querierCaps)) && same(xq_a1, sel) && same(xq_a2, stages)
+//@   ensures[engine-evaluates-every-stage] bp_called ==> same(bp_a0, stages)
+//@   ensures[storage-gets-the-extracted-conditions] sq_called ==> xq_r1 == nil && same(sq_a3, xq_r0.params)
+//@   ensures[prefilter-and-pipeline-of-this-query] ret1 == nil ==> bp_called && bp_r1 == nil && same(ret0.pipeline, bp_r0) && same(ret0.prefilter, xq_r0.prefilter)
 //@   modifies *, opened(), holds(*)
 //@   ensures[requested-window] sq_called ==> sq_a2 == params.End && sq_a1 == ite(params.Instant, addDuration(params.Start, old(e.lookbackDuration)), params.Start)
 //@   ensures[limit-and-source] ret1 == nil ==> ret0.limit == params.Limit && ret0.entries == 0 && sq_called && same(ret0.iter, sq_r0)
@@ -924,9 +932,13 @@ package logqlengine
 //@   capture rn = call(lf.rename.Process, 0)
 //@   capture rs = call(lf.buf.Reset, 0)
 //@   capture ex = call(p.Template.Execute, 0)
+//@   capture am = call(set.AsMap, 0)
 //@   modifies *
 //@   ensures[never-drops] keep && rn_called && ret0 == rn_r0
-//@   loop 0 invariant set.labels != nil
+//@   ensures[templates-see-the-renamed-labels] precedes(rn_called, am_called)
+//@   ensures[templates-see-this-record] lf.ts == ts && lf.line == rn_r0
+//@   loop 0 body_ensures[template-over-the-current-labels] ex_called && same(ex_a1, any(am_r0))
+//@   loop 0 invariant set.labels != nil && lf.ts == ts && lf.line == line
 //@   loop 0 body_ensures[buffer-emptied-before-every-template] rs_called && ex_called && before(ex_called, bufferContent(lf.buf)) == ""
 //@   loop 0 body_ensures[target-is-exactly-the-expansion] ex_r0 == nil ==> has(set.labels, p.Label) && same(set.labels[p.Label], pcommon.NewValueStr(bufferContent(lf.buf)))
 //@   loop 0 body_ensures[failed-template-flags-the-line] ex_r0 != nil ==> has(set.labels, logql.ErrorLabel)
